@@ -31,6 +31,7 @@ class FnAnalysis(ast.NodeVisitor):
         self.env = {p: True for p in set_params}        # name -> unordered?
         self.findings = []
         self.injective_keys = set(injective_keys)
+        self.sequence_names = set()                     # names known to hold an ordered container (list / dict), as opposed to a set
 
     def flag(self, node, what):
         self.findings.append(Finding(self.where, getattr(node, "lineno", 0), what, ast.unparse(node)[:120]))
@@ -68,6 +69,9 @@ class FnAnalysis(ast.NodeVisitor):
                 return True           # the hash order is materialised: the result is an order-tainted sequence / mapping
             if name in self.set_attrs:            # method returning a set
                 return True
+            if name and name[:1].isupper() and name not in ("OrderedDict",) and \
+                    any(self._tainted_sequence(a) for a in list(e.args) + [k.value for k in e.keywords]):
+                return True           # an object built from a hash-ordered sequence / mapping carries that order (e.g. a response message)
         if isinstance(e, ast.Dict):
             # {**a, **b}: insertion order follows the merged mappings
             return any(k is None and self.unordered(v) for k, v in zip(e.keys, e.values))
@@ -77,6 +81,18 @@ class FnAnalysis(ast.NodeVisitor):
             # iterating a hash-ordered value, or producing elements that are themselves hash-ordered (an ordered container of unordered
             # things is tainted too: whoever picks an element gets a hash-ordered value)
             return any(self.unordered(g.iter) for g in e.generators) or self.unordered(e.elt)
+        return False
+
+    def _tainted_sequence(self, e):
+        """An ordered container (list / tuple / dict / generator) whose order was produced by hashing - as opposed to a plain set."""
+        if isinstance(e, (ast.ListComp, ast.GeneratorExp, ast.DictComp, ast.Dict)):
+            return self.unordered(e)
+        if isinstance(e, ast.Call):
+            f = e.func
+            name = f.id if isinstance(f, ast.Name) else (f.attr if isinstance(f, ast.Attribute) else None)
+            return name in ("list", "tuple", "dict", "OrderedDict", "values", "keys", "items", "chain") and self.unordered(e)
+        if isinstance(e, ast.Name):
+            return self.env.get(e.id, False) and e.id in self.sequence_names
         return False
 
     # ---- consumers -------------------------------------------------------------------------------------------------
@@ -89,9 +105,10 @@ class FnAnalysis(ast.NodeVisitor):
                 self.flag(node, "sorted() of an unordered value with a key that is not declared injective (ties keep hash order)")
         elif name == "next" and node.args and any(self.unordered(a) for a in node.args):
             self.flag(node, "next() picks an element of an unordered value")
-        elif isinstance(f, ast.Attribute) and name in ("extend", "append", "insert") and isinstance(f.value, ast.Name) and node.args \
+        elif isinstance(f, ast.Attribute) and name in ("extend", "append", "insert", "update", "setdefault") and isinstance(f.value, ast.Name) and node.args \
                 and (self.unordered(node.args[-1]) or self.in_unordered_loop):
-            self.env[f.value.id] = True       # the list now carries hash order
+            self.env[f.value.id] = True       # the list / dict now carries hash order (for a set receiver this changes nothing)
+            self.sequence_names.add(f.value.id)
         elif name == "join" and node.args and self.unordered(node.args[0]):
             self.flag(node, "join() over an unordered value")
         self.generic_visit(node)
@@ -142,6 +159,7 @@ class FnAnalysis(ast.NodeVisitor):
                     for t in n.targets:
                         if isinstance(t, ast.Subscript) and isinstance(t.value, ast.Name):
                             self.env[t.value.id] = True
+                            self.sequence_names.add(t.value.id)
                 if isinstance(n, ast.Return) and n.value is not None and not (isinstance(n.value, ast.Constant)):
                     return False
                 if isinstance(n, ast.Break):
